@@ -193,7 +193,7 @@ func c17Decoder(dec string) dials.Decoder {
 // C17Op is one file operation.
 type C17Op struct {
 	Mech    string `json:"mech"`              // inplace | rename | swap | delrec
-	Content string `json:"content"`           // new | same | bad
+	Content string `json:"content"`           // new | same | bad | restore (bytes of the last valid content) | revert (bytes of the valid content before the last one)
 	Doc     C17Doc `json:"doc"`               // when content == new
 	Bad     int    `json:"bad,omitempty"`     // malformed template, when content == bad
 	GapMS   int    `json:"gap_ms,omitempty"`  // delrec: pause between delete and recreate
@@ -208,6 +208,8 @@ func (o C17Op) kind() string {
 		return "identical"
 	case "bad":
 		return "malformed"
+	case "restore", "revert":
+		return o.Content
 	}
 	return o.Mech
 }
@@ -281,7 +283,7 @@ func c17ValidOps(s C17Setup, ops []C17Op, counters map[int]bool, extraPause map[
 				return fmt.Errorf("op %d: counter %d reused", i, o.Doc.Counter)
 			}
 			counters[o.Doc.Counter] = true
-		case "same":
+		case "same", "restore", "revert":
 		case "bad":
 			if o.Bad < 0 || o.Bad >= c17BadTemplates {
 				return fmt.Errorf("op %d: bad template %d", i, o.Bad)
@@ -343,16 +345,20 @@ func genC17Mech(t *rapid.T, layout string, atomicOnly bool) string {
 }
 
 // genC17Op draws one operation; content is "" for a free choice.
-func genC17Op(t *rapid.T, s C17Setup, counter int, content string, atomicOnly bool) C17Op {
+func genC17Op(t *rapid.T, s C17Setup, counter int, content string, atomicOnly, noRevert bool) C17Op {
 	o := C17Op{Mech: genC17Mech(t, s.Layout, atomicOnly), PauseMS: genC17Pause(t)}
 	if content == "" {
 		switch k := rapid.IntRange(0, 19).Draw(t, "content"); {
-		case k < 12:
+		case k < 10:
 			content = "new"
-		case k < 15:
+		case k < 13:
 			content = "same"
-		default:
+		case k < 17:
 			content = "bad"
+		case k < 19 || noRevert:
+			content = "restore"
+		default:
+			content = "revert"
 		}
 	}
 	o.Content = content
@@ -405,7 +411,7 @@ func c17Ptrs(lists ...[]C17Op) []*C17Op {
 	return out
 }
 
-func genC17Ops(t *rapid.T, s C17Setup, lo, hi int, final string) []C17Op {
+func genC17Ops(t *rapid.T, s C17Setup, lo, hi int, final string, noRevert bool) []C17Op {
 	n := rapid.IntRange(lo, hi).Draw(t, "nops")
 	ops := make([]C17Op, n)
 	for i := range ops {
@@ -413,7 +419,7 @@ func genC17Ops(t *rapid.T, s C17Setup, lo, hi int, final string) []C17Op {
 		if i == n-1 {
 			content = final
 		}
-		ops[i] = genC17Op(t, s, i+2, content, false)
+		ops[i] = genC17Op(t, s, i+2, content, false, noRevert)
 	}
 	c17AvoidKnown(s, c17Ptrs(ops))
 	return ops
@@ -422,8 +428,22 @@ func genC17Ops(t *rapid.T, s C17Setup, lo, hi int, final string) []C17Op {
 func genC17Converge(t *rapid.T) C17Case {
 	s := genC17Setup(t)
 	// final content: valid (new) / identical to the previous / invalid
-	final := rapid.SampledFrom([]string{"new", "new", "new", "new", "new", "new", "same", "same", "bad", "bad"}).Draw(t, "final")
-	return C17Case{C17Setup: s, Ops: genC17Ops(t, s, 1, 12, final)}
+	final := rapid.SampledFrom([]string{"new", "new", "new", "new", "new", "same", "same", "bad", "bad", "restore", "revert"}).Draw(t, "final")
+	ops := genC17Ops(t, s, 1, 12, final, false)
+	spare := genC17Doc(t, len(ops)+2)
+	// a history that ends invalid: the last valid content must be new (see
+	// the settle step in Run)
+	m := c17NewModel(s)
+	last, endsValid := -1, true
+	for i, o := range ops {
+		if endsValid = m.step(o).valid; endsValid {
+			last = i
+		}
+	}
+	if !endsValid && last >= 0 && ops[last].Content != "new" {
+		ops[last].Content, ops[last].Doc = "new", spare
+	}
+	return C17Case{C17Setup: s, Ops: ops}
 }
 
 // ------------------------------------------------------------------ the world
@@ -444,25 +464,63 @@ type c17State struct {
 	cfg   c17Config // when valid
 }
 
+// c17Model is the pure model of the file's content.
+type c17Model struct {
+	dec       string
+	seq       int
+	cur       c17State
+	lastValid c17State // most recent valid content
+	prevValid c17State // the valid content before that one (other bytes)
+	hasPrev   bool
+}
+
+func c17NewModel(s C17Setup) c17Model {
+	st := c17State{bytes: s.Initial.render(s.Decoder), valid: true, cfg: s.Initial.expect()}
+	return c17Model{dec: s.Decoder, cur: st, lastValid: st}
+}
+
+// step returns the content operation o writes and records it.
+func (m *c17Model) step(o C17Op) c17State {
+	m.seq++
+	next := m.cur
+	switch o.Content {
+	case "new":
+		next = c17State{bytes: o.Doc.render(m.dec), valid: true, cfg: o.Doc.expect()}
+	case "bad":
+		next = c17State{bytes: c17Bad(m.dec, o.Bad, 1000+m.seq)}
+	case "restore":
+		next = m.lastValid
+	case "revert":
+		next = m.lastValid
+		if m.hasPrev {
+			next = m.prevValid
+		}
+	}
+	if next.valid && string(next.bytes) != string(m.lastValid.bytes) {
+		m.prevValid, m.hasPrev = m.lastValid, true
+		m.lastValid = next
+	}
+	m.cur = next
+	return next
+}
+
 type c17World struct {
+	c17Model
 	s       C17Setup
 	root    string
 	visible string // the watched path
 	real    string // the regular file behind it
 	tsDir   string // k8s: current timestamped directory
 	tsN     int
-	seq     int
-	cur     c17State
 }
 
 func c17NewWorld(s C17Setup) *c17World {
 	root, err := os.MkdirTemp("", "verif-c17-")
 	c17Must(err)
-	w := &c17World{s: s, root: root}
+	w := &c17World{c17Model: c17NewModel(s), s: s, root: root}
 	fname := "cfg." + s.Decoder
 	w.visible = filepath.Join(root, fname)
-	b := s.Initial.render(s.Decoder)
-	w.cur = c17State{bytes: b, valid: true, cfg: s.Initial.expect()}
+	b := w.cur.bytes
 	if s.Layout == "direct" {
 		w.real = w.visible
 		c17Must(os.WriteFile(w.real, b, 0o644))
@@ -487,15 +545,7 @@ func (w *c17World) close() { _ = os.RemoveAll(w.root) }
 // apply performs one operation (not the pause after it) and updates the
 // model. It reports whether the operation exposes the file empty for a moment.
 func (w *c17World) apply(o C17Op) (transientEmpty bool) {
-	w.seq++
-	next := w.cur
-	switch o.Content {
-	case "new":
-		next = c17State{bytes: o.Doc.render(w.s.Decoder), valid: true, cfg: o.Doc.expect()}
-	case "bad":
-		next = c17State{bytes: c17Bad(w.s.Decoder, o.Bad, 1000+w.seq)}
-	}
-	b := next.bytes
+	b := w.step(o).bytes
 	switch o.Mech {
 	case "inplace":
 		f, err := os.OpenFile(w.real, os.O_WRONLY|os.O_TRUNC, 0)
@@ -529,7 +579,6 @@ func (w *c17World) apply(o C17Op) (transientEmpty bool) {
 			c17Must(os.RemoveAll(old))
 		}
 	}
-	w.cur = next
 	return transientEmpty
 }
 
@@ -911,6 +960,26 @@ func (r *c17Run) awaitView(want c17Config, what string, ops []C17Op) *vrt.Verdic
 	return &v
 }
 
+// awaitIdleView waits until the view equals want while the watcher is idle.
+// Never seeing the watcher idle is not a failure.
+func (r *c17Run) awaitIdleView(want c17Config, ops []C17Op) *vrt.Verdict {
+	idle := func() bool {
+		if !r.viewIs(want) {
+			return false
+		}
+		k, _ := c17IdleOnce()
+		return k == "parked" && r.viewIs(want)
+	}
+	if c17Await(idle) {
+		return nil
+	}
+	if r.viewIs(want) {
+		r.label("not-idle-at-deadline")
+		return nil
+	}
+	return r.awaitView(want, "after the last operation (the view had shown the final config and moved away)", ops)
+}
+
 // classify gives a root-cause key for a lost update when the history allows
 // one (heuristic; the direct layout never matches):
 //
@@ -1101,6 +1170,24 @@ func runC17Converge(c C17Case) vrt.Verdict {
 	if err := c17ValidOps(c.C17Setup, c.Ops, map[int]bool{c.Initial.Counter: true}, nil); err != nil {
 		return vrt.Discardf("malformed case: %v", err)
 	}
+	// Model the states to find where the trailing invalid stretch begins.
+	valid := make([]bool, len(c.Ops))
+	lastValidOp := -1 // index of the last operation that leaves the file valid (-1: the initial content)
+	m := c17NewModel(c.C17Setup)
+	for i, o := range c.Ops {
+		valid[i] = m.step(o).valid
+		if valid[i] {
+			lastValidOp = i
+		}
+	}
+	if !valid[len(c.Ops)-1] && lastValidOp >= 0 && c.Ops[lastValidOp].Content != "new" {
+		// When earlier bytes come back (identical / restore / revert) "the
+		// view shows them" does not tell whether the watcher has caught up, so
+		// the last good config before a trailing invalid stretch would be
+		// ambiguous (another valid state, or with YAML the empty file of a
+		// truncating rewrite, may still be installed afterwards).
+		return vrt.Discardf("malformed case: the last valid content of a history that ends invalid must be new")
+	}
 	return c17Guard(func() vrt.Verdict {
 		r, v := c17Start(c.C17Setup)
 		if v != nil {
@@ -1109,27 +1196,9 @@ func runC17Converge(c C17Case) vrt.Verdict {
 		nt, labels := c17OpLabels(c.C17Setup, c.Ops)
 		r.labels = labels
 
-		// Model the states to find where the trailing invalid stretch begins.
-		valid := make([]bool, len(c.Ops))
-		cur := true
-		for i, o := range c.Ops {
-			switch o.Content {
-			case "new":
-				cur = true
-			case "bad":
-				cur = false
-			}
-			valid[i] = cur
-		}
-		finalValid := valid[len(c.Ops)-1]
-		settleAfter := -2 // index of the last operation that leaves the file valid (-1: the initial content)
+		finalValid, settleAfter := valid[len(c.Ops)-1], -2
 		if !finalValid {
-			settleAfter = -1
-			for i := range c.Ops {
-				if valid[i] {
-					settleAfter = i
-				}
-			}
+			settleAfter = lastValidOp
 		}
 
 		var lastGood c17Config
@@ -1169,8 +1238,23 @@ func runC17Converge(c C17Case) vrt.Verdict {
 		}
 
 		if finalValid {
-			r.label("final=" + map[bool]string{true: "identical", false: "valid"}[c.Ops[len(c.Ops)-1].Content == "same"])
+			switch lc := c.Ops[len(c.Ops)-1].Content; lc {
+			case "new":
+				r.label("final=valid")
+			case "same":
+				r.label("final=identical")
+			default:
+				r.label("final=" + lc)
+			}
 			if v := r.awaitView(r.w.cur.cfg, "after the last operation", c.Ops); v != nil {
+				r.finish()
+				return *v
+			}
+			// Earlier bytes may have come back (restore / revert / identical):
+			// the view can show the final config before the watcher has caught
+			// up. Keep looking until the watcher is idle with the right view;
+			// a view that moves away for good is a lost update like any other.
+			if v := r.awaitIdleView(r.w.cur.cfg, c.Ops); v != nil {
 				r.finish()
 				return *v
 			}
@@ -1277,17 +1361,17 @@ func genC17Ident(t *rapid.T) C17IdentCase {
 		if i == np-1 {
 			content = "new"
 		}
-		c.Prefix = append(c.Prefix, genC17Op(t, s, i+2, content, false))
+		c.Prefix = append(c.Prefix, genC17Op(t, s, i+2, content, false, false))
 	}
 	nr := rapid.IntRange(1, 3).Draw(t, "nrepl")
 	for i := 0; i < nr; i++ {
-		o := genC17Op(t, s, 0, "same", true)
+		o := genC17Op(t, s, 0, "same", true, true)
 		if i == nr-1 {
 			o.PauseMS = rapid.SampledFrom([]int{0, 30, 30, 100, 100}).Draw(t, "gap")
 		}
 		c.Repl = append(c.Repl, o)
 	}
-	c.Change = genC17Op(t, s, 100, "new", true)
+	c.Change = genC17Op(t, s, 100, "new", true, true)
 	gap := c.Repl[nr-1].PauseMS
 	c17AvoidKnown(s, append(c17Ptrs(c.Prefix, c.Repl), &c.Change))
 	if gap == 100 {
@@ -1316,6 +1400,7 @@ func runC17Ident(c C17IdentCase) vrt.Verdict {
 	if n := len(c.Prefix); n > 0 && c.Prefix[n-1].Content != "new" {
 		return vrt.Discardf("malformed case: prefix must end with valid content")
 	}
+
 	if err := c17ValidOps(c.C17Setup, c.Repl, counters, map[int]bool{100: true}); err != nil {
 		return vrt.Discardf("malformed case: repl %v", err)
 	}
@@ -1420,7 +1505,7 @@ type C17ReleaseCase struct {
 
 func genC17Release(t *rapid.T) C17ReleaseCase {
 	s := genC17Setup(t)
-	ops := genC17Ops(t, s, 1, 8, "")
+	ops := genC17Ops(t, s, 1, 8, "", false)
 	return C17ReleaseCase{C17Setup: s, Ops: ops,
 		CancelAt:      rapid.IntRange(0, len(ops)).Draw(t, "cancel_at"),
 		CancelDelayMS: rapid.SampledFrom([]int{0, 0, 1, 30}).Draw(t, "cancel_delay")}
